@@ -19,6 +19,7 @@ mcAdvC ==
   \cup {<<F_D(sid, 2, es)>> : sid \in {1, 2}, es \in BOOLEAN}
   \cup {<<[t |-> "RST", sid |-> sid, code |-> 8]>> : sid \in {1, 2}}
   \cup {<<[t |-> "WU", sid |-> sid, inc |-> 5]>> : sid \in {1, 2}}
+  \cup {<<AWU(1, 2147483647)>>, <<AD(1, 2, FALSE, 3)>>}        \* window overflow; padded DATA
   \cup {<<[t |-> "PP", sid |-> sid, pid |-> 2, h |-> "req_get_b", blk |-> "ok"]>> : sid \in {1, 3}}
 mcSetup == <<
   [a |-> "call", x |-> "c", c |-> [op |-> "init"]],
